@@ -248,7 +248,15 @@ impl<'a> Sim<'a> {
             let body_len = j.get("content").and_then(|c| c.get("body")).and_then(|b| b.as_str()).map(|b| b.len()).unwrap_or(0);
             let want = (body_len as i64 + target as i64 - len as i64).max(0) as usize;
             let mut c = j.get("content").cloned().unwrap_or_else(J::obj);
-            c.set("body", J::Str("p".repeat(want)));
+            // the limit is in bytes: half of the boundary events are padded with multi-byte
+            // characters, so that their length in characters is far below the limit
+            let unit = *self.t.pick(&["p", "p", "\u{e9}", "\u{20ac}", "\u{1F600}"]);
+            let mut body = unit.repeat(want / unit.len());
+            body.push_str(&"p".repeat(want % unit.len()));
+            if unit.len() > 1 {
+                self.bump("size.boundary-multibyte-padding");
+            }
+            c.set("body", J::Str(body));
             j.set("content", c);
             let got = revent::content_hash_input(&j).len();
             self.bump(&format!("size.boundary.{}", got as i64 - 65_535));
